@@ -73,3 +73,10 @@ def run_with(eng, st, cm_results, body_src="__probe__()"):
         for s2, o in eng.inline_contextmanager(s, cm, None, body):
             out.append((s2, o if isinstance(o, Raised) else Ret(NONE)))
     return out
+
+
+def std_globals(c):
+    """module-level values computed at import time, given their documented ranges"""
+    m = c.int("MAX_STR_INT")
+    c.requires(z3.Or(m.t == 0, m.t >= 640), "liquid.limits.MAX_STR_INT is 0 (unlimited) or >= 640")
+    c.override_global("liquid.limits", "MAX_STR_INT", m)
